@@ -1,6 +1,7 @@
-(* Enum fields over mix-in enum classes: on every candidate free of the two confusions ([mx_safe]) the
-   code-shaped model of Enum.__set__ agrees with the documented rule, for EVERY class, mix-in, declared
-   subset and candidate; each confusion is refuted by a constructed witness. *)
+(* Enum fields over mix-in enum classes: the code-shaped model of Enum.__set__ agrees with the documented
+   rule for EVERY class, mix-in, declared subset and candidate; the inputs on which a membership test by ==
+   was confused (the defects C02-mixin-eq-confusion / -name-confusion, repaired in typedpy) are decided as
+   documented. *)
 From Coq Require Import ZArith NArith String Bool List Lia.
 Import ListNotations.
 From TP Require Import Base.PyVal Base.PyEq Base.PyOps Fields.EnumMixin Ser.AgreeProofs.
@@ -44,6 +45,7 @@ Proof.
   destruct (alist_get (ec_members E) s) as [v|]; [eauto | discriminate].
 Qed.
 
+(* identity implies ==: what the former membership test (==) saw of a declared member *)
 Lemma declared_member_in_members E decl x :
   is_declared_member E decl x = true -> x_in_members E x decl = true.
 Proof.
@@ -55,51 +57,46 @@ Qed.
 Lemma plain_not_declared E decl v : is_declared_member E decl (XPlain v) = false.
 Proof. unfold is_declared_member. induction decl as [|d t IH]; [reflexivity|]. cbn [existsb x_same_member orb]. exact IH. Qed.
 
-Theorem mx_agree_safe : forall E decl x,
-    is_cand x = true -> decl_in_class E decl = true -> mx_safe E decl x = true ->
+(* the code decides as documented on EVERY candidate (before the repair of Enum._validate: only on the
+   candidates free of the == confusion and of the name confusion) *)
+Theorem mx_agree_doc : forall E decl x,
+    is_cand x = true -> decl_in_class E decl = true ->
     mx_agree (mx_set E decl x) (mx_doc E decl x) = true.
 Proof.
-  intros E decl x Hc Hd Hs.
-  unfold mx_safe in Hs. apply andb_true_iff in Hs as [Ha Hb].
+  intros E decl x Hc Hd.
   destruct x as [v | c m n v | l | l | kv]; try discriminate Hc.
   - (* an ordinary value *)
     pose proof (plain_not_declared E decl v) as Hdm.
-    clear Hb.
     destruct v as [| b | nu | s | l | l | l | f l | kv | c n v | c attrs | t r];
-      try (unfold mx_set, mx_validate, name_hit, x_is_str in *; cbn [px_isinstance existsb xclass_is isinstance1 orb andb negb] in *;
-           rewrite Hdm in Ha; cbn [negb andb] in Ha;
-           destruct (x_in_members E _ decl); [discriminate Ha | reflexivity]).
+      try (unfold mx_set, mx_validate, x_is_str; cbn [px_isinstance existsb xclass_is isinstance1 orb andb negb];
+           rewrite Hdm; reflexivity).
     (* a plain str *)
-    unfold mx_set, mx_validate, name_hit, x_is_str in *.
-    cbn [px_isinstance existsb xclass_is isinstance1 orb andb negb px_is_enum_member mx_doc] in *.
-    rewrite x_in_names_plain_str in *. rewrite Hdm in Ha. cbn [negb andb] in Ha.
+    unfold mx_set, mx_validate, x_is_str.
+    cbn [px_isinstance existsb xclass_is isinstance1 orb andb negb px_is_enum_member mx_doc].
+    rewrite x_in_names_plain_str. rewrite Hdm.
     destruct (str_in s (decl_names decl)) eqn:Hn.
     + cbn [negb andb bind]. unfold mx_lookup. cbn [x_base]. rewrite xmap_get_name.
       destruct (alist_has_of_decl E decl s Hd Hn) as [v Hv]. rewrite Hv.
       cbn [mx_agree xval_eqb]. rewrite !pystr_eqb_refl, pyval_eqb_refl. destruct (ec_mix E); reflexivity.
-    + cbn [negb andb] in *. destruct (x_in_members E (XPlain (PStr s)) decl); [discriminate Ha | reflexivity].
-  - (* an enum member *)
-    unfold mx_set, mx_validate. cbn [px_is_enum_member negb andb mx_doc] in *.
+    + reflexivity.
+  - (* an enum member: accepted exactly when it IS a declared member, stored as it is *)
+    unfold mx_set, mx_validate. cbn [px_is_enum_member negb andb mx_doc].
+    rewrite andb_false_r. cbn [negb andb].
     destruct (is_declared_member E decl (XMem c m n v)) eqn:Hdm.
-    + rewrite (declared_member_in_members _ _ _ Hdm). rewrite andb_false_r. cbn [bind].
-      rewrite andb_false_r. cbn [mx_agree]. apply xval_eqb_refl. reflexivity.
-    + cbn [negb andb] in Ha, Hb.
-      unfold name_hit in Ha. cbn [px_is_enum_member negb] in Ha. rewrite andb_false_r in Ha. cbn [negb andb] in Ha.
-      destruct (x_in_members E (XMem c m n v) decl); [discriminate Ha|].
-      destruct (x_is_str (XMem c m n v) && x_in_names (XMem c m n v) (decl_names decl)); [discriminate Hb|].
-      reflexivity.
+    + cbn [negb bind mx_agree]. apply xval_eqb_refl. reflexivity.
+    + reflexivity.
 Qed.
 
-(* every rejection of a safe candidate is a TypeError / ValueError *)
+(* every rejection is a TypeError / ValueError *)
 Theorem mx_error_class : forall E decl x e,
-    is_cand x = true -> decl_in_class E decl = true -> mx_safe E decl x = true ->
+    is_cand x = true -> decl_in_class E decl = true ->
     mx_set E decl x = Raise e -> is_te_ve e = true.
 Proof.
-  intros E decl x e Hc Hd Hs Hr. pose proof (mx_agree_safe E decl x Hc Hd Hs) as H.
+  intros E decl x e Hc Hd Hr. pose proof (mx_agree_doc E decl x Hc Hd) as H.
   rewrite Hr in H. unfold mx_agree in H. destruct (mx_doc E decl x); [discriminate H | exact H].
 Qed.
 
-(* ---------------------------------------------------------------- the confusions are real *)
+(* ---------------------------------------------------------------- the former confusions, now decided as documented *)
 
 Definition Tone : ecls :=
   {| ec_name := s2p "Tone"; ec_mix := MxStr;
@@ -108,34 +105,35 @@ Definition Level : ecls :=
   {| ec_name := s2p "Level"; ec_mix := MxInt;
      ec_members := [(s2p "A", PNum (NInt 1)); (s2p "B", PNum (NInt 2))] |}.
 
-(* the raw value of a member of a str mix-in class passes _validate (== with the member) and then fails the
-   lookup by name with KeyError *)
-Lemma mx_refuted_value_keyerror :
-  mx_set Tone (ec_members Tone) (XPlain (PStr (s2p "low"))) = Raise KeyError /\
+(* the raw value of a member of a str mix-in class equals the member, but is neither a declared member object
+   nor a declared name: rejected with ValueError (was: accepted by ==, then KeyError in the lookup by name) *)
+Lemma mx_value_string_rejected :
+  x_in_members Tone (XPlain (PStr (s2p "low"))) (ec_members Tone) = true /\
+  mx_set Tone (ec_members Tone) (XPlain (PStr (s2p "low"))) = Raise ValueError /\
   mx_doc Tone (ec_members Tone) (XPlain (PStr (s2p "low"))) = None.
-Proof. split; vm_compute; reflexivity. Qed.
+Proof. repeat split; vm_compute; reflexivity. Qed.
 
-(* a member that was NOT declared is accepted because its value is the name of a declared member *)
-Lemma mx_refuted_undeclared_member :
+(* a member that was NOT declared, whose value is the name of a declared member: rejected (was: accepted and stored) *)
+Lemma mx_undeclared_member_rejected :
   let decl := [(s2p "LOW", PStr (s2p "low")); (s2p "MID", PStr (s2p "mid"))] in
   let high := XMem (s2p "Tone") MxStr (s2p "HIGH") (PStr (s2p "LOW")) in
-  mx_set Tone decl high = Ok high /\ mx_doc Tone decl high = None.
-Proof. split; vm_compute; reflexivity. Qed.
+  x_in_names high (decl_names decl) = true /\
+  mx_set Tone decl high = Raise ValueError /\ mx_doc Tone decl high = None.
+Proof. repeat split; vm_compute; reflexivity. Qed.
 
-(* the raw int of a member of an int mix-in class is accepted and stored as the int, not as the member *)
-Lemma mx_refuted_raw_int :
-  mx_set Level (ec_members Level) (XPlain (PNum (NInt 1))) = Ok (XPlain (PNum (NInt 1))) /\
+(* the raw int of a member of an int mix-in class equals the member: rejected (was: stored as the int) *)
+Lemma mx_raw_int_rejected :
+  x_in_members Level (XPlain (PNum (NInt 1))) (ec_members Level) = true /\
+  mx_set Level (ec_members Level) (XPlain (PNum (NInt 1))) = Raise ValueError /\
   mx_doc Level (ec_members Level) (XPlain (PNum (NInt 1))) = None.
-Proof. split; vm_compute; reflexivity. Qed.
+Proof. repeat split; vm_compute; reflexivity. Qed.
 
-(* non-vacuity: members and names of a mix-in class in the safe domain *)
-Lemma mx_safe_nonvacuous :
+(* non-vacuity: members and names of a mix-in class that are accepted / rejected *)
+Lemma mx_nonvacuous :
   let decl := [(s2p "LOW", PStr (s2p "low")); (s2p "MID", PStr (s2p "mid"))] in
-  mx_safe Tone decl (XMem (s2p "Tone") MxStr (s2p "MID") (PStr (s2p "mid"))) = true /\
+  decl_in_class Tone decl = true /\
   mx_set Tone decl (XMem (s2p "Tone") MxStr (s2p "MID") (PStr (s2p "mid")))
     = Ok (XMem (s2p "Tone") MxStr (s2p "MID") (PStr (s2p "mid"))) /\
-  mx_safe Tone decl (XPlain (PStr (s2p "MID"))) = true /\
   mx_set Tone decl (XPlain (PStr (s2p "MID"))) = Ok (XMem (s2p "Tone") MxStr (s2p "MID") (PStr (s2p "mid"))) /\
-  mx_safe Tone decl (XPlain (PStr (s2p "HIGH"))) = true /\
   mx_set Tone decl (XPlain (PStr (s2p "HIGH"))) = Raise ValueError.
 Proof. repeat split; vm_compute; reflexivity. Qed.
